@@ -193,6 +193,27 @@ def elasticOpd (k : Nat) (w : Str) : Opd :=
 def fieldElasticOpd (f : Str) (k : Nat) (w : Str) : Opd :=
   ⟨f ++ ':' :: (signText k ++ w), .leaf (.range (some f) (signBounds k w).1 (signBounds k w).2), 1⟩
 
+/-- the decimal text of a boost: integer digits and fraction digits (empty: no `.`) -/
+structure BoostLit where
+  int : Str
+  frac : Str
+
+def BoostLit.text (b : BoostLit) : Str :=
+  match b.frac with
+  | [] => b.int
+  | f => b.int ++ '.' :: f
+
+/-- the value the grammar computes from the text -/
+def BoostLit.val (b : BoostLit) : BoostText :=
+  BoostText.norm b.frac.length ⟨natOfDigits (b.int ++ b.frac), b.frac.length⟩
+
+def WFBoost (b : BoostLit) : Prop :=
+  b.int ≠ [] ∧ (∀ d ∈ b.int, d.isDigit = true) ∧ (∀ d ∈ b.frac, d.isDigit = true)
+
+/-- `x^2.5` as an item of a list -/
+def boostOpd (o : Opd) (b : BoostLit) : Opd :=
+  ⟨o.text ++ '^' :: b.text, applyBoost o.leaf (some b.val), o.cost⟩
+
 /-- `NOT x` (`k + 1` blanks after the keyword) as an operand -/
 def notOpd (k : Nat) (o : Opd) : Opd :=
   ⟨'N' :: 'O' :: 'T' :: ' ' :: (spaces k ++ o.text), o.leaf.unary .mustNot, o.cost + 1⟩
